@@ -29,19 +29,19 @@ INVARIANT Export
 PROPERTY Terminates
 """
 
-OBJ = {"a": [1, 2, {"b": 3}], "items": [{"n": 1}, {"n": 2}, {"n": 3}], "é": "e-acute", "\\u00e9": "raw", "x y": "decoded", "x%20y": "literal", "s": "str"}
-ARR = [{"a": [1, 2, {"b": 3}], "n": 2}, {"a": [], "n": 0}, "s", {"é": 1, "\\u00e9": 2, "x y": 3, "x%20y": 4}]
+OBJ = {"a ": "trailing blank", "a": [1, 2, {"b": 3}], "items": [{"n": 1}, {"n": 2}, {"n": 3}], "é": "e-acute", "\\u00e9": "raw", "x y": "decoded", "x%20y": "literal", "s": "str"}
+ARR = [{"a": [1, 2, {"b": 3}], "n": 2}, {"a": [], "n": 0}, "s", {"é": 1, "\\u00e9": 2, "x y": 3, "x%20y": 4, "a ": "trailing blank"}]
 DOCS = {"object": json.dumps(OBJ).encode(), "array": json.dumps(ARR).encode(),
         # legal encodings of JSON text other than plain UTF-8 (RFC 8259 8.1 allows a reader to accept them; json.loads does)
         "object-utf16": json.dumps(OBJ).encode("utf-16"), "object-utf8-bom": b"\xef\xbb\xbf" + json.dumps(OBJ).encode(), "malformed": b'{"a": [1, ', "malformed-scalar": b"tru", "undecodable": b'{"a": "\xff\xfe"}', "empty-file": b""}
 
 PATH = {"ok": "$..a[*]", "ok-filter": "$..[?@.n > 1].n", "ok-escape": "$..['\\u00e9']", "ok-empty-result": "$.nope.nada", "ok-empty-query": "", "ok-union": "$..a[*] | $..n | $.s", "ok-intersection": "$..n & $..[?@.n > 1].n",
-        "ok-multiline": "$..[?@.n > 1\n  and @.n < 3\n  or @.n == 1\n].n", "huge-literal": "$..[?@.n == " + "9" * 5000 + "]", "syntax": "$[1,,2]",
+        "ok-multiline": "$..[?@.n > 1\n  and @.n < 3\n  or @.n == 1\n].n", "ok-membership": "$.items[?@ in $ || $.a contains @.n || @.n in @]", "huge-literal": "$..[?@.n == " + "9" * 5000 + "]", "syntax": "$[1,,2]",
         "type": "$[?length(@.a, @.b) > 1]", "name": "$[?nosuch(@.a)]", "index": "$[9007199254740992]",
         "illtyped-only-when-checked": "$..[?length(@.*) > 1]", "unterminated": "$['a", "bad-regex": "$..[?@.s =~ /(/]"}
-POINTER = {"object": {"ok": "/a/2/b", "ok-root": "", "ok-escape": "/\\u00e9", "ok-uri": "/x%20y", "ok-nonascii": "/é", "unresolvable-key": "/nope",
+POINTER = {"object": {"ok": "/a/2/b", "ok-root": "", "ok-escape": "/\\u00e9", "ok-uri": "/x%20y", "ok-nonascii": "/é", "ok-trailing-space": "/a ", "unresolvable-key": "/nope",
                       "unresolvable-index": "/a/99", "into-scalar": "/s/0", "no-leading-slash": "a/b"},
-           "array": {"ok": "/0/a/2/b", "ok-root": "", "ok-escape": "/3/\\u00e9", "ok-uri": "/3/x%20y", "ok-nonascii": "/3/é", "unresolvable-key": "/0/nope",
+           "array": {"ok": "/0/a/2/b", "ok-root": "", "ok-escape": "/3/\\u00e9", "ok-uri": "/3/x%20y", "ok-nonascii": "/3/é", "ok-trailing-space": "/3/a ", "unresolvable-key": "/0/nope",
                      "unresolvable-index": "/99", "into-scalar": "/2/0", "no-leading-slash": "0/a"}}
 PATCH = {"object": {"ok": [{"op": "add", "path": "/a/-", "value": {"k": [0]}}, {"op": "copy", "from": "/items/0", "path": "/c"}, {"op": "test", "path": "/c/n", "value": 1}],
                     "ok-root": [{"op": "replace", "path": "", "value": {"z": [1, True, None]}}], "ok-empty": [],
